@@ -35,8 +35,8 @@ def main(argv):
         # the package does not import, ...): the correspondence between model and code no longer checks
         import traceback
         tb = traceback.format_exc()
-        os.makedirs(os.path.join(common.VERIF, 'replays'), exist_ok=True)
-        path = os.path.join(common.VERIF, 'replays', '%s-harness.json' % prop)
+        os.makedirs(common.REPLAYS, exist_ok=True)
+        path = os.path.join(common.REPLAYS, '%s-harness.json' % prop)
         with open(path, 'w') as f:
             json.dump(dict(property=prop, tier=tier, kind='correspondence-harness-could-not-run',
                            theorem='correspondence check of %s (harness/check_%s.py and its drivers) against the '
